@@ -314,6 +314,13 @@ static int do_act(const act_t *a, const char *what) {
 		if (a->node >= 0 && !cm_board_connected(&M, a->node)) {      /* the board is gone: what arrives from its old address belongs to whoever sits there now */
 			int owner = -1; for (int b = 0; b < M.nb; b++) if (cm_board_connected(&M, b) && !memcmp(BADDR[b], BADDR[a->node], 4)) owner = b;
 			rs_apply(&R, owner, a->type, a->d, a->dl); sb_send_from(BADDR[a->node], 0, a->type, a->d, a->dl); }
+		else if (a->node >= 0 && a->i1 > 0) {     /* the message shares its packet with an earlier one from a deeper, unknown node */
+			static const uint8_t DEEP[2][4] = {{1, 2, 0, 0}, {1, 2, 3, 0}}; uint8_t payload[200]; int po = 0; uint8_t pd = 0x55;
+			rs_apply(&R, a->node, a->type, a->d, a->dl);
+			po += rc_build_msg(payload + po, DEEP[(a->i1 - 1) % 2], 0, MSG_SYS_PONG, &pd, 1);
+			int sbn = M.b[a->node].sbnode; uint8_t seq = SB.n[sbn].seq; SB.n[sbn].seq = seq == 255 ? 1 : (uint8_t) (seq + 1);
+			po += rc_build_msg(payload + po, SB.n[sbn].addr, SB.use_seq ? seq : 0, a->type, a->d, a->dl);
+			uint8_t f[500]; size_t fl = rc_frame(f, payload, (size_t) po, 1); env_push_quiet(f, fl); }
 		else if (a->node >= 0) { rs_apply(&R, a->node, a->type, a->d, a->dl);
 			if (a->type == MSG_ACCESSORY_NOTIFY && a->dl >= 2) SB.n[M.b[a->node].sbnode].acc_aspect[a->d[0]] = a->d[1];    /* the node that notifies a new aspect answers the following MSG_ACCESSORY_GET with it */
 			sb_send(M.b[a->node].sbnode, a->type, a->d, a->dl); }
@@ -519,6 +526,15 @@ static int g_relogin(int k, case_t *c) {
 	if (k < no) { c->a[0] = lose_oc1; c->a[1] = lose_lc1; c->a[2] = take; c->a[3] = TO[k]; c->na = 4; return 1; } k -= no;
 	if (k < nl) { c->a[0] = lose_oc1; c->a[1] = lose_lc1; c->a[2] = take; c->a[3] = TL[k]; c->na = 4; return 1; }
 	return 0; }
+/* several messages in one packet: the state-bearing message follows a message from a node two or three levels deep (its own
+ * address is shorter, so whatever is left of the earlier address must not leak into it) */
+static int g_shared_packet(int k, case_t *c) {
+	act_t T[] = { UP(B_MASTER, MSG_BM_OCC, 0), UP(B_MASTER, MSG_BM_ADDRESS, 0, T1L, T1H), UP(B_MASTER, MSG_BM_CURRENT, 0, 100), UP(B_MASTER, MSG_BOOST_STAT, 0x80), UP(B_MASTER, MSG_CS_STATE, 0x03),
+		UP(B_MASTER, MSG_CS_DRIVE_MANUAL, T1L, T1H, 3, 0x03, 0x8B, 0x11, 0, 0, 0), UP(B_MASTER, MSG_CS_ACCESSORY_ACK, 0x22, 0x11, 2), vendor(B_MASTER, "30051", "3"),
+		UP(B_OC1, MSG_BM_OCC, 0), UP(B_OC1, MSG_BM_CURRENT, 0, 100), UP(B_OC1, MSG_ACCESSORY_STATE, 2, 0, 2, 1, 5), UP(B_LC1, MSG_ACCESSORY_STATE, 0x10, 1, 2, 0, 0), UP(B_LC1, MSG_LC_STAT, 0x23, 0x01, 1), UP(B_BOOSTER2, MSG_BOOST_STAT, 0x81) };
+	int n = (int) (sizeof T / sizeof T[0]);
+	if (k >= 2 * n) return 0;
+	c->a[0] = T[k % n]; c->a[0].i1 = 1 + k / n; c->na = 1; return 1; }
 static int g_cmd_speed(int k, case_t *c) {
 	if (k < 253) { c->a[0] = cmd(A_SPEED, "train1", NULL, k - 126); c->na = 1; return 1; } k -= 253;
 	static const int S2[8] = {0, 5, 0, -5, 0, 28, -126, 0};
@@ -556,7 +572,7 @@ static const part_t PARTS[] = {
 	{"BM_ADDRESS lists of 0..3 entries", g_address_lists}, {"BM_CONFIDENCE", g_confidence}, {"BM_CURRENT code/number", g_current}, {"BM_SPEED", g_speed}, {"BM_DYN_STATE", g_dyn},
 	{"BOOST_STAT", g_boost_stat}, {"BOOST_DIAGNOSTIC key/value", g_diag_fields}, {"BOOST_DIAGNOSTIC lists of 0..3 pairs", g_diag_lists}, {"CS_STATE", g_cs_state}, {"CS_DRIVE_ACK", g_drive_ack},
 	{"CS_ACCESSORY_ACK", g_acc_ack}, {"CS_DRIVE_MANUAL", g_drive_manual}, {"CS_ACCESSORY_MANUAL", g_acc_manual}, {"ACCESSORY_STATE/NOTIFY", g_acc_state}, {"LC_STAT/LC_WAIT", g_lc}, {"VENDOR (reverser)", g_vendor},
-	{"unknown or wrong sender", g_unknown_sender}, {"sender address of a lost board / taken over by another board", g_relogin}, {"bidib_set_train_speed", g_cmd_speed}, {"bidib_set_train_peripheral", g_cmd_func}, {"bidib_switch_point/bidib_set_signal (DCC)", g_cmd_accessory},
+	{"unknown or wrong sender", g_unknown_sender}, {"sender address of a lost board / taken over by another board", g_relogin}, {"message shares its packet with one from a deeper node", g_shared_packet}, {"bidib_set_train_speed", g_cmd_speed}, {"bidib_set_train_peripheral", g_cmd_func}, {"bidib_switch_point/bidib_set_signal (DCC)", g_cmd_accessory},
 	{"bidib_send_cs_drive", g_cmd_csdrive}, {"bidib_send_cs_accessory", g_cmd_csacc},
 };
 #define NPARTS ((int) (sizeof PARTS / sizeof PARTS[0]))
